@@ -134,7 +134,10 @@ func templateCases() []tmplCase {
 	})
 	add("subject utf8", func(t *gx509.Certificate) { t.Subject = pkix.Name{CommonName: "国密-тест"} })
 	add("validity epoch", func(t *gx509.Certificate) { t.NotBefore = time.Unix(0, 0).UTC(); t.NotAfter = date(1970, 1, 2) })
-	add("validity 2049/2050", func(t *gx509.Certificate) { t.NotBefore = time.Date(2049, 12, 31, 23, 59, 59, 0, time.UTC); t.NotAfter = time.Date(2050, 1, 1, 0, 0, 0, 0, time.UTC) })
+	add("validity 2049/2050", func(t *gx509.Certificate) {
+		t.NotBefore = time.Date(2049, 12, 31, 23, 59, 59, 0, time.UTC)
+		t.NotAfter = time.Date(2050, 1, 1, 0, 0, 0, 0, time.UTC)
+	})
 	add("validity 2050+", func(t *gx509.Certificate) { t.NotBefore = date(2050, 1, 1); t.NotAfter = date(2099, 12, 31) })
 	add("validity non-UTC zone", func(t *gx509.Certificate) {
 		z := time.FixedZone("x", 8*3600)
@@ -156,12 +159,20 @@ func templateCases() []tmplCase {
 		t.UnknownExtKeyUsage = []asn1.ObjectIdentifier{{1, 2, 3, 4, 5}}
 	})
 	add("CA pathlen unset", func(t *gx509.Certificate) { t.BasicConstraintsValid = true; t.IsCA = true })
-	add("CA pathlen 0", func(t *gx509.Certificate) { t.BasicConstraintsValid = true; t.IsCA = true; t.MaxPathLen = 0; t.MaxPathLenZero = true })
+	add("CA pathlen 0", func(t *gx509.Certificate) {
+		t.BasicConstraintsValid = true
+		t.IsCA = true
+		t.MaxPathLen = 0
+		t.MaxPathLenZero = true
+	})
 	add("CA pathlen 1", func(t *gx509.Certificate) { t.BasicConstraintsValid = true; t.IsCA = true; t.MaxPathLen = 1 })
 	add("CA pathlen -1", func(t *gx509.Certificate) { t.BasicConstraintsValid = true; t.IsCA = true; t.MaxPathLen = -1 })
 	add("not CA, BC present", func(t *gx509.Certificate) { t.BasicConstraintsValid = true; t.IsCA = false })
 	add("san dns several", func(t *gx509.Certificate) { t.DNSNames = []string{"a.example", "*.b.example", "xn--fiq228c.example"} })
-	add("san email", func(t *gx509.Certificate) { t.DNSNames = nil; t.EmailAddresses = []string{"u@example.test", "v@example.test"} })
+	add("san email", func(t *gx509.Certificate) {
+		t.DNSNames = nil
+		t.EmailAddresses = []string{"u@example.test", "v@example.test"}
+	})
 	add("san ipv4", func(t *gx509.Certificate) { t.DNSNames = nil; t.IPAddresses = []net.IP{net.ParseIP("10.1.2.3").To4()} })
 	add("san ipv6", func(t *gx509.Certificate) { t.DNSNames = nil; t.IPAddresses = []net.IP{net.ParseIP("2001:db8::17")} })
 	add("san ipv4 as 16 bytes", func(t *gx509.Certificate) { t.DNSNames = nil; t.IPAddresses = []net.IP{net.ParseIP("192.168.0.1")} })
@@ -170,14 +181,20 @@ func templateCases() []tmplCase {
 		t.IPAddresses = []net.IP{net.ParseIP("10.0.0.1").To4(), net.ParseIP("::1")}
 	})
 	add("no san", func(t *gx509.Certificate) { t.DNSNames = nil })
-	add("name constraints", func(t *gx509.Certificate) { t.BasicConstraintsValid = true; t.IsCA = true; t.PermittedDNSDomains = []string{"example.test", ".sub.example.test"} })
+	add("name constraints", func(t *gx509.Certificate) {
+		t.BasicConstraintsValid = true
+		t.IsCA = true
+		t.PermittedDNSDomains = []string{"example.test", ".sub.example.test"}
+	})
 	add("name constraints critical", func(t *gx509.Certificate) {
 		t.BasicConstraintsValid = true
 		t.IsCA = true
 		t.PermittedDNSDomains = []string{"example.test"}
 		t.PermittedDNSDomainsCritical = true
 	})
-	add("policies", func(t *gx509.Certificate) { t.PolicyIdentifiers = []asn1.ObjectIdentifier{{1, 2, 156, 10197, 1}, {2, 23, 140, 1, 2, 1}} })
+	add("policies", func(t *gx509.Certificate) {
+		t.PolicyIdentifiers = []asn1.ObjectIdentifier{{1, 2, 156, 10197, 1}, {2, 23, 140, 1, 2, 1}}
+	})
 	add("crl dp + aia", func(t *gx509.Certificate) {
 		t.CRLDistributionPoints = []string{"http://crl.example/a.crl", "http://crl.example/b.crl"}
 		t.OCSPServer = []string{"http://ocsp.example"}
@@ -646,14 +663,118 @@ func faultUnit(si int) harness.Unit {
 			try("signature", i)
 		}
 		c.Sample(fmt.Sprintf("every byte of TBS (%d) and signature value (%d) of a certificate signed by %s x {b^1,b^0x80,00,ff}", len(p.RawTBSCertificate), len(p.Signature), s.name))
+
+		// the same for a certificate request and a revocation list
+		type obj struct {
+			kind   string
+			make   func() ([]byte, error)
+			parts  func(der []byte) (signed, sig []byte, err error)
+			verify func(der []byte) bool
+		}
+		now, next := date(2024, 5, 6), date(2024, 6, 6)
+		objs := []obj{
+			{"request", func() ([]byte, error) {
+				t := gx509.CertificateRequest{Subject: pkix.Name{CommonName: "req", Organization: []string{"O"}}, DNSNames: []string{"a.example"}}
+				return gx509.CreateCertificateRequest(rand.Reader, &t, s.key)
+			}, func(der []byte) ([]byte, []byte, error) {
+				q, err := gx509.ParseCertificateRequest(der)
+				if err != nil {
+					return nil, nil, err
+				}
+				return q.RawTBSCertificateRequest, q.Signature, q.CheckSignature()
+			}, func(der []byte) bool {
+				q, err := gx509.ParseCertificateRequest(der)
+				return err == nil && q.CheckSignature() == nil
+			}},
+			{"crl", func() ([]byte, error) {
+				return s.ca.CreateCRL(rand.Reader, s.key, []pkix.RevokedCertificate{{SerialNumber: big.NewInt(5), RevocationTime: date(2024, 1, 1)}}, now, next)
+			}, func(der []byte) ([]byte, []byte, error) {
+				q, err := gx509.ParseCRL(der)
+				if err != nil {
+					return nil, nil, err
+				}
+				return q.TBSCertList.Raw, q.SignatureValue.Bytes, s.ca.CheckCRLSignature(q)
+			}, func(der []byte) bool {
+				q, err := gx509.ParseCRL(der)
+				return err == nil && s.ca.CheckCRLSignature(q) == nil
+			}},
+		}
+		for _, o := range objs {
+			// unused-bits octet 1..7 on 10 objects
+			for n := 0; n < 10; n++ {
+				d2, err := o.make()
+				if err != nil {
+					break
+				}
+				_, sig, err := o.parts(d2)
+				if err != nil {
+					break
+				}
+				ub := bytes.LastIndex(d2, sig) - 1
+				for k := byte(1); k <= 7; k++ {
+					bad := append([]byte{}, d2...)
+					bad[ub] = k
+					c.Add("evaluations", 1)
+					c.Distinct("nontrivial", bad)
+					var ok bool
+					if c.Guard("fault-panic:"+o.kind, "unused-bits octet changed", nil, func() { ok = o.verify(bad) }) {
+						continue
+					}
+					if ok {
+						c.Violate(fmt.Sprintf("fault-undetected:%s-signature-unused-bits:%s", o.kind, s.name), fmt.Sprintf("%s signed by %s still verifies after the unused-bits octet of the signature BIT STRING was changed 00->%02x", o.kind, s.name, k), nil, nil)
+					}
+				}
+			}
+			d, err := o.make()
+			if err != nil {
+				c.Note("%s not created for %s: %v", o.kind, s.name, err)
+				continue
+			}
+			signed, sig, err := o.parts(d)
+			if err != nil {
+				c.Note("%s of %s does not verify; byte faults skipped (reported elsewhere): %v", o.kind, s.name, err)
+				continue
+			}
+			so, go_ := bytes.Index(d, signed), bytes.LastIndex(d, sig)
+			bs := go_ - 1
+			for bs > 0 && d[bs] != 0x03 {
+				bs--
+			}
+			idx := []int{}
+			for i := so; i < so+len(signed); i++ {
+				idx = append(idx, i)
+			}
+			for i := bs; i < go_+len(sig); i++ {
+				idx = append(idx, i)
+			}
+			for _, i := range idx {
+				for _, v := range []byte{d[i] ^ 1, d[i] ^ 0x80, 0x00, 0xff} {
+					if v == d[i] {
+						continue
+					}
+					bad := append([]byte{}, d...)
+					bad[i] = v
+					c.Add("evaluations", 1)
+					c.Distinct("nontrivial", bad)
+					var ok bool
+					if c.Guard("fault-panic:"+o.kind, fmt.Sprintf("parse/verify with byte %d changed", i), nil, func() { ok = o.verify(bad) }) {
+						continue
+					}
+					if ok {
+						c.Violate(fmt.Sprintf("fault-undetected:%s:%s", o.kind, s.name), fmt.Sprintf("%s signed by %s still verifies after byte %d changed %02x->%02x", o.kind, s.name, i, d[i], v), nil, nil)
+					}
+				}
+			}
+			c.Sample(fmt.Sprintf("every byte of the signed part (%d) and signature value (%d) of a %s signed by %s x {b^1,b^0x80,00,ff}", len(signed), len(sig), o.kind, s.name))
+		}
 	}}
 }
 
 // Prop registers C09.
 var Prop = &harness.Prop{
-	ID:    "C09",
-	Level: "exploration",
-	Rule: "one-at-a-time product: 58 template variations (serials incl. negative/20-byte, names, validity boundaries, every KeyUsage bit, every ExtKeyUsage, basic constraints/path lengths, SAN kinds, name constraints, policies, CRL DP/AIA, extra extension, key ids) x signer {SM2, RSA-2048, P-256, P-384} x signature algorithm {unset + the signer's family; all 9 incl. mismatching ones on the base template}; CSRs (5 templates) and CRLs (CreateCRL, CreateRevocationList x 9 algorithms x 3 revoked sets) likewise. For every object inside the premise: creation, parse-back field by field, verification under the issuer, failure under other keys. Fault enumeration: every byte of the signed part and of the signatureValue BIT STRING (tag, length, unused-bits octet, contents) of one certificate per signer x {b^1,b^0x80,00,ff} must fail to parse or verify. Distinct/non-trivial = distinct case labels / mutated DERs.",
+	ID:          "C09",
+	Level:       "exploration",
+	Rule:        "one-at-a-time product: 58 template variations (serials incl. negative/20-byte, names, validity boundaries, every KeyUsage bit, every ExtKeyUsage, basic constraints/path lengths, SAN kinds, name constraints, policies, CRL DP/AIA, extra extension, key ids) x signer {SM2, RSA-2048, P-256, P-384} x signature algorithm {unset + the signer's family; all 9 incl. mismatching ones on the base template}; CSRs (5 templates) and CRLs (CreateCRL, CreateRevocationList x 9 algorithms x 3 revoked sets) likewise. For every object inside the premise: creation, parse-back field by field, verification under the issuer, failure under other keys. Fault enumeration: every byte of the signed part and of the signatureValue BIT STRING (tag, length, unused-bits octet, contents) of one certificate, one certificate request and one revocation list per signer x {b^1,b^0x80,00,ff} must fail to parse or verify; the unused-bits octet set to 1..7 on 10 objects of each kind. Distinct/non-trivial = distinct case labels / mutated DERs.",
 	Assumptions: []string{"RSA/ECDSA issuer certificates are created with Go's crypto/x509 and parsed by the package", "signature values are randomised inside the library (not observed)"},
 	Bounds:      func(tier string) string { return "complete for the stated alphabets in both tiers" },
 	Units: func(tier string) []harness.Unit {
